@@ -90,6 +90,9 @@ def special(rng):
         d = {'$repeat': {n: rng.randint(1, 2) for n in names}, 'v': '$"' + '-'.join('{$repeat:%s}' % n for n in names) + '"'}
         d.update(manykeys(rng, 5))
         return [('d', [], d)]
+    if rng.random() < 0.12:
+        # a long stream of plain documents (evaluation order across documents must be the stream order)
+        return [('d%d' % k, [], {'n': k, 'pad': manykeys(rng, 3)}) for k in range(rng.randint(12, 24))]
     if rng.random() < 0.25:
         # evaluation order between siblings matters when a map-form $merge is expanded in place
         d = {'defaults': {'port': 80, 'host': 'h'}, 'frontend': {'$merge': 'defaults', 'own': 1}}
@@ -198,6 +201,35 @@ def check_case(ctx, case):
     res.ev('concurrent_evaluations', len(sub) * G)
     if len(set(others)) > 1:
         return res.violate('determinism', 'a co-running input gave different results across goroutines/rounds', prog=other, events=sorted(set(map(str, others))))
+    # the same program once more, this time decoded from files (YAML with anchors and aliases) inside the goroutines
+    if case.get('i', 0) % 4 == 0 and all(isinstance(d, dict) for _, _, d in prog):
+        fd = ctx.casedir()
+        frng = random.Random(text)
+        paths = []
+        for gi in range(G):
+            pth = os.path.join(fd, 'g%d.yaml' % gi)
+            docs_ = [d for _, par, d in (prog if gi % 2 == 0 else other) if not par and isinstance(d, dict)] or [{'k': gi}]
+            with open(pth, 'w') as f:
+                f.write(ser.yaml_stream(docs_, frng, 'rich') if frng.random() < 0.7 else ser.yaml_stream(docs_, frng))
+                f.write('---\nanch: &a {v: 1, l: [1, 2]}\nuse1: *a\nuse2: {<<: *a, w: 2}\nuse3: [*a, *a]\n')
+            paths.append(pth)
+        fcases = [[{'op': 'merge_layers', 'path': pth}, {'op': 'output', 'format': fmt}] for pth in paths]
+        try:
+            resp3 = w.call([{'op': 'concurrent', 'cases': fcases, 'repeat': R}], budget=0, timeout=300)
+            res.execs += 1
+        except Exception as e:
+            stderr = getattr(e, 'stderr', '')
+            ctx.drop_worker('race', race=True)
+            ctx.cleanup_case(fd)
+            return res.violate('race', 'concurrent evaluations from files crashed the process: %s' % stderr[-1500:], prog=prog)
+        ctx.cleanup_case(fd)
+        per = {}
+        for round_ in resp3['results'][0].get('sub') or []:
+            for g, blk in enumerate(round_):
+                per.setdefault(g, set()).add(event(blk))
+        if any(len(v) > 1 for v in per.values()):
+            return res.violate('determinism', 'the same file gave different results across concurrent rounds', prog=prog)
+        res.ev('concurrent_file_evaluations', len(per) * R)
     racelog = w.stderr_text()
     nraces = racelog.count('WARNING: DATA RACE')
     if nraces:
